@@ -166,7 +166,10 @@ def check_cases(ctx, cases):
                 queries[0] += 1
                 if queries[0] > 10 * n + 10:
                     raise RuntimeError("query budget exceeded: discovery does not terminate")
-                return [x for x in ids if x not in known_ids]
+                ans = [x for x in ids if x not in known_ids]
+                # (the interface says Iterable: lists, sets, tuples and one-shot iterators in turn)
+                how = (case["sched_seed"] + queries[0]) % 5
+                return [ans, set(ans), tuple(ans), iter(ans), (x for x in ans)][how]
 
             content_missing = skipped_content_missing = directory_missing = _missing
 
